@@ -25,6 +25,18 @@ pub enum MsgKind {
     BadShuffleFee,
 }
 
+/// where the cw2 record the migration sees comes from
+#[derive(Clone, Copy, Debug, Default, Serialize, Deserialize, PartialEq, Eq)]
+pub enum Stored {
+    /// (name, version) of the case are written over the record
+    #[default]
+    Rewrite,
+    /// nothing is written: the record is exactly what the contract's own instantiate stored
+    AsInstantiated,
+    /// the NAME stays as instantiate stored it, only the VERSION of the case is written
+    KeepName,
+}
+
 #[derive(Clone, Debug, Serialize, Deserialize, PartialEq, Eq)]
 pub enum Case {
     /// semver::Version::parse on the crate itself
@@ -49,6 +61,8 @@ pub enum Case {
         /// state of the optional instantiate fields (see w_migrate::setup_opt)
         #[serde(default)]
         opt: u8,
+        #[serde(default)]
+        stored: Stored,
     },
     /// a factory instantiated with `init`, stored cw2 (name, version), migrated with an
     /// optional parameter message; the Params answer is compared field by field
@@ -202,7 +216,7 @@ fn coq_state(name: &str, version: &str, raw: &Raw, ids: &mut Ids) -> String {
 }
 
 fn run_mig(w: &mut World, case: &Case, code_version: &str) -> Outcome {
-    let Case::Mig { contract, name, version, msg, legacy_minter, strip_flags, clock, .. } = case else { unreachable!() };
+    let Case::Mig { contract, name, version, msg, legacy_minter, strip_flags, clock, stored, .. } = case else { unreachable!() };
     let c = *contract;
     let addr = w.setup.addr.clone();
     // ---- put the world back and apply the case's preparation
@@ -226,7 +240,17 @@ fn run_mig(w: &mut World, case: &Case, code_version: &str) -> Outcome {
             st.remove(b"enable_updatable");
         }
     }
-    set_cw2(&mut w.setup.app, &addr, name, version);
+    // the record as the contract's own instantiate left it (the world was just restored)
+    let (inst_name, inst_version) = get_cw2(&w.setup.app, &addr);
+    let (name, version): (String, String) = match stored {
+        Stored::Rewrite => (name.clone(), version.clone()),
+        Stored::AsInstantiated => (inst_name.clone(), inst_version.clone()),
+        Stored::KeepName => (inst_name.clone(), version.clone()),
+    };
+    let (name, version) = (&name, &version);
+    if *stored != Stored::AsInstantiated {
+        set_cw2(&mut w.setup.app, &addr, name, version);
+    }
     let now = chain::now(&w.setup.app);
     let pre = snapshot(&w.setup.app, &addr, &w.qs);
     // ---- migrate
@@ -250,6 +274,12 @@ fn run_mig(w: &mut World, case: &Case, code_version: &str) -> Outcome {
 
     // ---- monitors (property text; documented names; the semver crate for the ordering)
     let mut viol = vec![];
+    if *stored != Stored::Rewrite && inst_name != own_name(c) {
+        viol.push((
+            format!("C20:{:?}:instantiate-recorded-foreign-identity", c),
+            format!("{:?}: its own instantiate recorded the cw2 identity {:?} (version {:?}); its migrate treats {:?} as its own identity", c, inst_name, inst_version, own_name(c)),
+        ));
+    }
     let mut v = |key: &str, what: String| viol.push((format!("C20:{}:{:?}", key, c), format!("{:?} stored ({:?}, {:?}) msg {:?}: {}", c, name, version, msg, what)));
     let code = plain_triple(code_version).expect("code version");
     let stored = plain_triple(version);
@@ -1005,7 +1035,7 @@ fn harvested_versions() -> Vec<String> {
 }
 
 fn mig(contract: Contract, stage: u8, name: &str, version: &str) -> Case {
-    Case::Mig { contract, stage, name: name.to_string(), version: version.to_string(), msg: MsgKind::Nothing, legacy_minter: false, strip_flags: false, clock: None, gov: 0, opt: 0 }
+    Case::Mig { contract, stage, name: name.to_string(), version: version.to_string(), msg: MsgKind::Nothing, legacy_minter: false, strip_flags: false, clock: None, gov: 0, opt: 0, stored: Stored::Rewrite }
 }
 
 fn gen_cases(a: &Args, code: &str) -> Vec<Case> {
@@ -1075,7 +1105,7 @@ fn gen_cases(a: &Args, code: &str) -> Vec<Case> {
                         continue;
                     }
                     for (name, ver) in [(own, "3.15.0"), (own, code), (own, "0.1.0"), (own, "3.17.0"), (own, "x"), ("crates.io:sg-minter", "3.15.0")] {
-                        cases.push(Case::Mig { contract: c, stage, name: name.to_string(), version: ver.to_string(), msg: k, legacy_minter: false, strip_flags: false, clock: None, gov: 0, opt: 0 });
+                        cases.push(Case::Mig { contract: c, stage, name: name.to_string(), version: ver.to_string(), msg: k, legacy_minter: false, strip_flags: false, clock: None, gov: 0, opt: 0, stored: Stored::Rewrite });
                     }
                 }
             }
@@ -1089,7 +1119,7 @@ fn gen_cases(a: &Args, code: &str) -> Vec<Case> {
                             continue;
                         }
                         let mut push = |name: &str, ver: &str, msg: MsgKind| {
-                            cases.push(Case::Mig { contract: c, stage: gstage, name: name.to_string(), version: ver.to_string(), msg, legacy_minter: false, strip_flags: false, clock: None, gov, opt: 0 });
+                            cases.push(Case::Mig { contract: c, stage: gstage, name: name.to_string(), version: ver.to_string(), msg, legacy_minter: false, strip_flags: false, clock: None, gov, opt: 0, stored: Stored::Rewrite });
                         };
                         // every version literal of the migrate sources (+-1) for every triple; the
                         // whole boundary list and a grid sample for "blocked" and "all flags"
@@ -1134,27 +1164,27 @@ fn gen_cases(a: &Args, code: &str) -> Vec<Case> {
                                         if legacy && c != Contract::Sg721Updatable {
                                             continue;
                                         }
-                                        cases.push(Case::Mig { contract: c, stage: ostage, name: name.to_string(), version: ver.clone(), msg: MsgKind::Nothing, legacy_minter: legacy, strip_flags: false, clock: None, gov: 0, opt });
+                                        cases.push(Case::Mig { contract: c, stage: ostage, name: name.to_string(), version: ver.clone(), msg: MsgKind::Nothing, legacy_minter: legacy, strip_flags: false, clock: None, gov: 0, opt, stored: Stored::Rewrite });
                                     }
                                 }
                             }
                         }
                         for (i, ver) in grid.iter().enumerate() {
                             if ostage == 1 && (i + opt as usize) % 9 == 0 {
-                                cases.push(Case::Mig { contract: c, stage: ostage, name: own.to_string(), version: ver.clone(), msg: MsgKind::Nothing, legacy_minter: c == Contract::Sg721Updatable, strip_flags: false, clock: None, gov: 0, opt });
+                                cases.push(Case::Mig { contract: c, stage: ostage, name: own.to_string(), version: ver.clone(), msg: MsgKind::Nothing, legacy_minter: c == Contract::Sg721Updatable, strip_flags: false, clock: None, gov: 0, opt, stored: Stored::Rewrite });
                             }
                         }
                         for (name, ver) in [("crates.io:sg-base-minter", "2.4.0"), (own, "3.16"), (own, "99.0.0")] {
-                            cases.push(Case::Mig { contract: c, stage: ostage, name: name.to_string(), version: ver.to_string(), msg: MsgKind::Nothing, legacy_minter: false, strip_flags: false, clock: None, gov: 0, opt });
+                            cases.push(Case::Mig { contract: c, stage: ostage, name: name.to_string(), version: ver.to_string(), msg: MsgKind::Nothing, legacy_minter: false, strip_flags: false, clock: None, gov: 0, opt, stored: Stored::Rewrite });
                         }
                         if c.kind() == Kind::Factory {
                             for ver in ["2.4.0", "3.15.0", code] {
-                                cases.push(Case::Mig { contract: c, stage: ostage, name: own.to_string(), version: ver.to_string(), msg: MsgKind::Valid, legacy_minter: false, strip_flags: false, clock: None, gov: 0, opt });
+                                cases.push(Case::Mig { contract: c, stage: ostage, name: own.to_string(), version: ver.to_string(), msg: MsgKind::Valid, legacy_minter: false, strip_flags: false, clock: None, gov: 0, opt, stored: Stored::Rewrite });
                             }
                         }
                         if is_minter(c) && ostage == 1 {
                             for ver in harvested.iter() {
-                                cases.push(Case::Mig { contract: c, stage: ostage, name: own.to_string(), version: ver.clone(), msg: MsgKind::Nothing, legacy_minter: false, strip_flags: false, clock: None, gov: 6, opt });
+                                cases.push(Case::Mig { contract: c, stage: ostage, name: own.to_string(), version: ver.clone(), msg: MsgKind::Nothing, legacy_minter: false, strip_flags: false, clock: None, gov: 6, opt, stored: Stored::Rewrite });
                             }
                         }
                     }
@@ -1188,15 +1218,38 @@ fn gen_cases(a: &Args, code: &str) -> Vec<Case> {
                             for ver in &vers {
                                 let legacy = c == Contract::Sg721Updatable && plain_triple(ver).map_or(false, |t| t < (3, 0, 0));
                                 let gov = if is_minter(c) && estage == 3 && opt == 0 { 2 } else { 0 };
-                                cases.push(Case::Mig { contract: c, stage: estage, name: name.to_string(), version: ver.clone(), msg: MsgKind::Nothing, legacy_minter: legacy, strip_flags: false, clock: None, gov, opt });
+                                cases.push(Case::Mig { contract: c, stage: estage, name: name.to_string(), version: ver.clone(), msg: MsgKind::Nothing, legacy_minter: legacy, strip_flags: false, clock: None, gov, opt, stored: Stored::Rewrite });
                             }
                         }
-                        cases.push(Case::Mig { contract: c, stage: estage, name: "crates.io:sg-base-minter".to_string(), version: "2.4.0".to_string(), msg: MsgKind::Nothing, legacy_minter: false, strip_flags: false, clock: None, gov: 0, opt });
+                        cases.push(Case::Mig { contract: c, stage: estage, name: "crates.io:sg-base-minter".to_string(), version: "2.4.0".to_string(), msg: MsgKind::Nothing, legacy_minter: false, strip_flags: false, clock: None, gov: 0, opt, stored: Stored::Rewrite });
                         if c.kind() == Kind::Factory {
                             for ver in ["2.4.0", code] {
-                                cases.push(Case::Mig { contract: c, stage: estage, name: own.to_string(), version: ver.to_string(), msg: MsgKind::Valid, legacy_minter: false, strip_flags: false, clock: None, gov: 0, opt });
+                                cases.push(Case::Mig { contract: c, stage: estage, name: own.to_string(), version: ver.to_string(), msg: MsgKind::Valid, legacy_minter: false, strip_flags: false, clock: None, gov: 0, opt, stored: Stored::Rewrite });
                             }
                         }
+                    }
+                }
+            }
+            // "as instantiated": migrate from the cw2 record exactly as the contract's own
+            // instantiate stored it, and with that NAME kept and only the version rewound
+            if si == 0 {
+                let mut stages: Vec<u8> = vec![0, 1, 2];
+                stages.extend(end_stages(c));
+                for st in stages {
+                    for opt in [0u8, 1] {
+                        cases.push(Case::Mig { contract: c, stage: st, name: String::new(), version: String::new(), msg: MsgKind::Nothing, legacy_minter: false, strip_flags: false, clock: None, gov: 0, opt, stored: Stored::AsInstantiated });
+                    }
+                    if st == 0 || st == 2 {
+                        continue;
+                    }
+                    for (i, ver) in harvested.iter().enumerate() {
+                        if st == 1 || i % 2 == 0 {
+                            let legacy = c == Contract::Sg721Updatable && plain_triple(ver).map_or(false, |t| t < (3, 0, 0));
+                            cases.push(Case::Mig { contract: c, stage: st, name: String::new(), version: ver.clone(), msg: MsgKind::Nothing, legacy_minter: legacy, strip_flags: false, clock: None, gov: 0, opt: 0, stored: Stored::KeepName });
+                        }
+                    }
+                    for ver in ["0.16.0", "3.15.9", code, "3.16.1", "3.16"] {
+                        cases.push(Case::Mig { contract: c, stage: st, name: String::new(), version: ver.to_string(), msg: MsgKind::Nothing, legacy_minter: false, strip_flags: false, clock: None, gov: 0, opt: 0, stored: Stored::KeepName });
                     }
                 }
             }
@@ -1205,7 +1258,7 @@ fn gen_cases(a: &Args, code: &str) -> Vec<Case> {
                 let h = 3600 * 1_000_000_000u64;
                 for t in [12 * h - 1, 12 * h, 12 * h + 1, 24 * h - 1, 24 * h, 24 * h + 1, 0] {
                     for ver in ["3.8.9", "3.9.0", "3.0.10", "3.1.0", "3.15.0"] {
-                        cases.push(Case::Mig { contract: c, stage, name: own.to_string(), version: ver.to_string(), msg: MsgKind::Nothing, legacy_minter: false, strip_flags: false, clock: Some(t), gov: 0, opt: 0 });
+                        cases.push(Case::Mig { contract: c, stage, name: own.to_string(), version: ver.to_string(), msg: MsgKind::Nothing, legacy_minter: false, strip_flags: false, clock: Some(t), gov: 0, opt: 0, stored: Stored::Rewrite });
                     }
                 }
             }
@@ -1215,10 +1268,10 @@ fn gen_cases(a: &Args, code: &str) -> Vec<Case> {
                     for (i, ver) in grid.iter().chain(bounds.iter()).enumerate() {
                         if si == 0 || i % 7 == si {
                             for strip in [false, true] {
-                                cases.push(Case::Mig { contract: c, stage, name: name.to_string(), version: ver.clone(), msg: MsgKind::Nothing, legacy_minter: true, strip_flags: strip, clock: None, gov: 0, opt: 0 });
+                                cases.push(Case::Mig { contract: c, stage, name: name.to_string(), version: ver.clone(), msg: MsgKind::Nothing, legacy_minter: true, strip_flags: strip, clock: None, gov: 0, opt: 0, stored: Stored::Rewrite });
                             }
                             if i % 5 == 0 {
-                                cases.push(Case::Mig { contract: c, stage, name: name.to_string(), version: ver.clone(), msg: MsgKind::Nothing, legacy_minter: false, strip_flags: true, clock: None, gov: 0, opt: 0 });
+                                cases.push(Case::Mig { contract: c, stage, name: name.to_string(), version: ver.clone(), msg: MsgKind::Nothing, legacy_minter: false, strip_flags: true, clock: None, gov: 0, opt: 0, stored: Stored::Rewrite });
                             }
                         }
                     }
@@ -1251,7 +1304,7 @@ fn gen_cases(a: &Args, code: &str) -> Vec<Case> {
         let upd = c == Contract::Sg721Updatable;
         let opt = rng.below(3) as u8;
         let gov = if is_minter(c) { rng.below(9) as u8 } else if c.kind() == Kind::Factory { rng.below(2) as u8 } else { 0 };
-        cases.push(Case::Mig { contract: c, stage, name, version, msg, legacy_minter: upd && rng.chance(1, 2), strip_flags: upd && rng.chance(1, 3), clock: None, gov, opt });
+        cases.push(Case::Mig { contract: c, stage, name, version, msg, legacy_minter: upd && rng.chance(1, 2), strip_flags: upd && rng.chance(1, 3), clock: None, gov, opt, stored: Stored::Rewrite });
     }
     cases
 }
